@@ -14,7 +14,7 @@ import gen_roland as GR
 from common import Case, Finding, Report, run_driver
 
 ASSUMPTIONS = [
-    "resource bounds of the oracle: CPU <= 10 s + 20 s per MiB of input, address-space growth <= 256 MiB + 32 x input size, output <= 1 MiB + 64 x input size; the limits are enforced with RLIMIT_CPU / RLIMIT_AS in a forked child, so exceeding them shows as a kill or MemoryError",
+    "resource bounds of the oracle: CPU <= 10 s + 20 s per MiB of input, address-space growth <= 256 MiB + 32 x input size, output <= 1 MiB + 16 x input size; the limits are enforced with RLIMIT_CPU / RLIMIT_AS in a forked child, so exceeding them shows as a kill or MemoryError",
     "the model tie compares outcome class (finished with a listing / finished with an error) and, when both finish normally, the full results; CPU seconds and resident memory are not expressible in the Lean model",
     "AKAI programs (keygroup chains) are exercised through the real code only (the model has no program parser yet: C20)",
 ]
@@ -31,7 +31,7 @@ def mem_bound(size: int) -> int:
 
 
 def out_bound(size: int) -> int:
-    return MiB + 64 * size
+    return MiB + 16 * size
 
 
 # ------------------------------------------------------------------ the child
@@ -177,6 +177,29 @@ def apply_patches(img: bytearray, kinds, rng, fam: str, info: dict):
                     off = ch[0] * 8192 + rng.randrange(0, 150)
                     if off < len(img):
                         img[off] = rng.choice([0, 0xFF, 0x7F, 0x80, rng.randrange(256)])
+            elif kind == "phantom-chain":
+                # a file whose chain runs on through sectors that lie beyond the partition, with sizes that claim all of it
+                ch = rng.choice([c for c in info["chains"] if c] or [[3]])
+                n = rng.choice([50, 500, 3000])
+                first = max(used + [40]) + 1
+                if first + n < 11386:
+                    put16(img, 1802 + 2 * ch[-1], first)
+                    for j in range(n):
+                        put16(img, 1802 + 2 * (first + j), first + j + 1 if j + 1 < n else 0xC000)
+                    hdr = ch[0] * 8192
+                    if hdr + 40 < len(img):
+                        img[hdr + 26:hdr + 30] = struct.pack("<I", 0x7FFFFF)
+                        img[hdr + 30:hdr + 34] = struct.pack("<I", 0)
+                        img[hdr + 34:hdr + 38] = struct.pack("<I", 0x7FFFFF)
+                    for k in range(4):
+                        v = get16(img, 202 + 16 * k + 14)
+                        if 0 < v * 8192 < len(img):
+                            for e in range(0, 24 * 12, 24):
+                                o = v * 8192 + e
+                                if get16(img, o + 20) == ch[0]:
+                                    img[o + 17:o + 20] = b"\xff\xff\xff"
+            elif kind == "truncate":
+                del img[rng.randrange(1, len(img)):]
             elif kind == "burst":
                 off = rng.randrange(0, min(len(img), 24574))
                 for j in range(rng.randint(1, 64)):
@@ -225,11 +248,32 @@ def apply_patches(img: bytearray, kinds, rng, fam: str, info: dict):
                 k = rng.randrange(0, 6)
                 off = GR.DIR["samp"] + 32 * k + rng.choice([0, 7, 16, 28, 29, 30, 31])
                 img[off] = rng.choice([0, 0xFF, 0x80, rng.randrange(256)])
+            elif kind == "phantom-chain":
+                # every sample shares one chain that runs on through clusters beyond the end of the file; end points claim all of it
+                ch = rng.choice(list(info["chains"].values()))
+                n = rng.choice([100, 1000, 4000])
+                first = max(used) + 9
+                put16(img, FAT + 2 * ch[-1], first)
+                for j in range(n):
+                    put16(img, FAT + 2 * (first + j), first + j + 1 if j + 1 < n else 0xFFF8)
+                for k in range(6):
+                    d = GR.DIR["samp"] + 32 * k
+                    if img[d] != 0:
+                        put16(img, d + 28, ch[0])
+                        o = GR.PAR["samp"][0] + 48 * k
+                        img[o + 16:o + 20] = struct.pack("<I", 0)
+                        img[o + 24:o + 28] = struct.pack("<I", 0xFFFFFF00)
+                        img[o + 32:o + 36] = struct.pack("<I", 0xFFFFFF00)
+                        img[o + 36] = rng.choice([0, 1, 2, 3, 4])
+                        put16(img, o + 40, 0)
+            elif kind == "truncate":
+                del img[rng.randrange(1, len(img)):]
             elif kind == "burst":
                 area = rng.choice([0, GR.FAT_OFF, GR.DIR["vol"], GR.DIR["perf"], GR.DIR["samp"], GR.PAR["vol"][0], GR.PAR["perf"][0], GR.PAR["samp"][0]])
                 off = area + rng.randrange(0, 600)
                 for j in range(rng.randint(1, 64)):
-                    img[off + j] = rng.randrange(256)
+                    if off + j < len(img):
+                        img[off + j] = rng.randrange(256)
 
 
 def put16(img, off, v):
@@ -322,18 +366,18 @@ def make_specs(ctx, rng, full: bool):
         add(family="rand", size=30000, prefix="akai", psize=ps)
     for k in range(2 if not full else 8):
         add(family="rand", size=0, prefix="sparse-roland", noise=rng.choice([0, 200, 5000, 40000]))
-    akai_kinds = ["sat-special", "sat-link", "sat-2cycle", "sat-noise", "psize", "volentry", "volstart", "dir", "filehdr", "burst"]
-    rol_kinds = ["fat-special", "fat-link", "fat-2cycle", "fat-selfloop", "fat-noise", "fat-longcycle", "counts", "ptrlist", "partial", "samplepar", "sampledir", "burst"]
+    akai_kinds = ["phantom-chain", "truncate", "sat-special", "sat-link", "sat-2cycle", "sat-noise", "psize", "volentry", "volstart", "dir", "filehdr", "burst"]
+    rol_kinds = ["phantom-chain", "truncate", "fat-special", "fat-link", "fat-2cycle", "fat-selfloop", "fat-noise", "fat-longcycle", "counts", "ptrlist", "partial", "samplepar", "sampledir", "burst"]
     reps = ctx.n(4, 60)
     for kind in akai_kinds:
         for _ in range(reps):
-            add(family="akai", patches=[kind] * rng.choice([1, 1, 2, 3]))
+            add(family="akai", patches=[kind] * (1 if kind in ("phantom-chain", "truncate") else rng.choice([1, 1, 2, 3])))
     for _ in range(ctx.n(10, 200)):
         add(family="akai", patches=[rng.choice(akai_kinds) for _ in range(rng.randint(1, 3))])
     rreps = ctx.n(2, 30)
     for kind in rol_kinds:
         for _ in range(rreps):
-            add(family="roland", patches=[kind] * rng.choice([1, 1, 2, 3]))
+            add(family="roland", patches=[kind] * (1 if kind in ("phantom-chain", "truncate") else rng.choice([1, 1, 2, 3])))
     for _ in range(ctx.n(6, 120)):
         add(family="roland", patches=[rng.choice(rol_kinds) for _ in range(rng.randint(1, 3))])
     for kind, ns in (("clean", [0]), ("long-blank-title", [300, 3000, 6000]), ("long-hyphen-title", [300, 3000, 6000]), ("long-dot-title", [300, 3000, 6000]),
@@ -447,7 +491,7 @@ def run(ctx, rep: Report, deep: bool = False):
             rep.sample({"family": "malformed-e2e", "op": repr(cases[0][0]), "result": cases[0][2][:200]})
     finally:
         scratch.__exit__(None, None, None)
-    rep.required_features = ["inputs_rand", "inputs_akai", "inputs_roland", "inputs_cdda", "kind_roland-fat-2cycle", "kind_akai-sat-2cycle", "kind_cdda-long-blank-title", "finished_ok_export", "finished_error_ls"]
+    rep.required_features = ["inputs_rand", "inputs_akai", "inputs_roland", "inputs_cdda", "kind_roland-fat-2cycle", "kind_akai-sat-2cycle", "kind_cdda-long-blank-title", "kind_roland-phantom-chain", "kind_akai-phantom-chain", "finished_ok_export", "finished_error_ls"]
 
 
 def search(ctx, rep: Report):
